@@ -1440,4 +1440,139 @@ val nominal_now : z
 
 val run_clock : sx -> sx
 
+type result =
+| ROk0 of n
+| RTimeout0
+| RSendErr
+
+type call_pc =
+| CInit
+| CReg
+| CPicked of nat
+| CSent
+| CLeaving of result
+| CReturned of result
+
+type packet =
+| PAnswer of n * n
+| PMalformed of n
+| PPong
+| PJunk
+
+type state0 = { pc : (nat -> call_pc); reg : (n * nat) list;
+                ch0 : (nat -> n option); next : nat; status : (nat -> bool);
+                broken : (nat -> bool); rq : (nat -> nat);
+                loops : (nat -> nat); wire : (nat -> packet list);
+                emitted : (n * n) list; delivered : (nat * n) list }
+
+val set_pc : state0 -> (nat -> call_pc) -> state0
+
+val set_reg : state0 -> (n * nat) list -> state0
+
+val set_ch : state0 -> (nat -> n option) -> state0
+
+val set_next : state0 -> nat -> state0
+
+val set_status : state0 -> (nat -> bool) -> state0
+
+val set_broken : state0 -> (nat -> bool) -> state0
+
+val set_rq : state0 -> (nat -> nat) -> state0
+
+val set_loops : state0 -> (nat -> nat) -> state0
+
+val set_wire : state0 -> (nat -> packet list) -> state0
+
+val set_emitted : state0 -> (n * n) list -> state0
+
+val set_delivered : state0 -> (nat * n) list -> state0
+
+val cupd : (nat -> 'a1) -> nat -> 'a1 -> nat -> 'a1
+
+val lookup0 : n -> (n * nat) list -> nat option
+
+val remove_id : n -> (n * nat) list -> (n * nat) list
+
+type label0 =
+| LRegister of nat
+| LPick of nat
+| LSendOk of nat
+| LSendFail of nat
+| LEmit of nat * packet
+| LDeliver of nat
+| LRecv0 of nat
+| LTimeout of nat
+| LUnregister of nat
+| LDrop of nat
+| LPingFail of nat
+| LSilence of nat
+| LReconnectEnter of nat
+| LReconnectDone of nat
+
+val step1 : nat -> (nat -> n) -> state0 -> label0 -> state0 option
+
+val exec : nat -> (nat -> n) -> state0 -> label0 list -> state0 option
+
+val init_state0 : state0
+
+val small0 : n -> nat
+
+val qid : nat -> n
+
+val unknown_id : n -> n
+
+val emission : string -> sx list -> (nat * packet) option
+
+val out_result : call_pc -> sx
+
+val finish_call : nat -> state0 -> nat -> state0 option
+
+val finish_all : nat -> nat -> state0 -> nat -> state0 option
+
+val outcomes : nat -> state0 -> sx
+
+val interp :
+  nat -> nat -> sx list -> state0 -> sx list -> (state0 * sx list) option
+
+val run_script : sx -> sx
+
+type obs =
+| OOk of n
+| OExpired
+| OErr
+
+val parse_obs : sx -> obs option
+
+val parse_all : (sx -> 'a1 option) -> sx list -> 'a1 list option
+
+val parse_emission : sx -> (nat * packet) option
+
+val safe_head : state0 -> obs list -> packet -> bool
+
+val find_safe : state0 -> obs list -> nat list -> nat option
+
+val wires_empty : state0 -> nat list -> bool
+
+val schedule : nat -> nat -> state0 -> obs list -> state0 option
+
+val start_calls : nat -> label0 list
+
+val obs_sx : obs -> sx
+
+val sx_eqb_outcome : sx -> sx -> bool
+
+val all2 : ('a1 -> 'a1 -> bool) -> 'a1 list -> 'a1 list -> bool
+
+val run_race : sx -> sx
+
+val is_picked : call_pc -> nat -> bool
+
+val picked_conn : call_pc -> nat option
+
+val event : nat -> state0 -> sx -> state0 option
+
+val events : nat -> state0 -> sx list -> nat -> sx
+
+val run_seq0 : sx -> sx
+
 val run : string -> sx -> sx
